@@ -287,6 +287,11 @@ type valueOutput struct {
 }
 
 func (vo valueOutput) Put(v any) error {
+	if vo.data == ClosedChan {
+		// An input-only or closed port redirected to an output, like in
+		// "put x >&0". Sending on the closed channel would panic.
+		return ErrPortDoesNotSupportValueOutput
+	}
 	select {
 	case vo.data <- v:
 		return nil
